@@ -460,6 +460,14 @@ def zone_menu():
           ('gettz-UTCfile', tz.gettz('UTC')), ('tzlocal', tz.tzlocal())]
     with open('/usr/share/zoneinfo/Europe/Dublin', 'rb') as f:
         zs.append(('tzfile-stream-Dublin', tz.tzfile(f)))
+    # same transition instants and the same type table, the types taken in opposite phase / from another table
+    from refs import tzif_ref
+    T = [int((D.datetime(2024, m, 1) - D.datetime(1970, 1, 1)).total_seconds()) for m in (2, 5, 9, 12)]
+    types = [(-18000, 0, 'EST'), (-14400, 1, 'EDT')]
+    for nm, idx, tt in (('tzfile-syn-phase-a', [1, 0, 1, 0], types), ('tzfile-syn-phase-b', [0, 1, 0, 1], types),
+                        ('tzfile-syn-other-names', [1, 0, 1, 0], [(-18000, 0, 'XST'), (-14400, 1, 'XDT')]),
+                        ('tzfile-syn-other-offsets', [1, 0, 1, 0], [(-18000, 0, 'EST'), (-12600, 1, 'EDT')])):
+        zs.append((nm, tz.tzfile(io.BytesIO(tzif_ref.encode(T, idx, tt)), filename=nm)))
     zs.append(('tzical', tz.tzical(io.StringIO(pm.vtimezone(pm.make_spec({})))).get()))
     return zs
 
@@ -527,7 +535,10 @@ def near_keys():
                  (('UTC+3', True), ('UTC+03:30', True))]:
         P.append(('tzstr', a, b))
     for a, b in [('Europe/London', 'Europe/Dublin'), ('UTC', 'Asia/Tokyo'), ('EST5EDT', 'EST5EDT,M3.2.0,M11.1.0'),
-                 ('America/New_York', 'America/Toronto'), ('Etc/GMT+3', 'Etc/GMT-3')]:
+                 ('America/New_York', 'America/Toronto'), ('Etc/GMT+3', 'Etc/GMT-3'),
+                 # spellings of one zone that are different *names* (each must keep returning its own first object)
+                 (':America/New_York', 'America/New_York'), ('/usr/share/zoneinfo/Europe/London', 'Europe/London'),
+                 (':/usr/share/zoneinfo/Asia/Tokyo', ':Asia/Tokyo'), ('Europe/London', ':Europe/London')]:
         P.append(('gettz', a, b))
     return P
 
